@@ -479,23 +479,27 @@ pub enum PointR {
 
 impl PointR {
     pub fn build<G: HasPool>(&self) -> Pt<G::F> {
-        let pool = G::pool();
+        // the pool is only touched by the recipes that need it (fresh child processes of C20 use
+        // generator-derived points only and must not pay for building it)
         let c = G::curve();
         match self {
             PointR::Identity => Pt::Inf,
             PointR::Gen => G::gen(),
-            PointR::SmallMult(j) => pool.small_mult[*j as usize % (SMALL_MULT_MAX + 1)].clone(),
-            PointR::Sub(i) => pool.sub[*i as usize % POOL_SUB].1.clone(),
-            PointR::Full(i) => pool.full[*i as usize % POOL_FULL].clone(),
+            PointR::SmallMult(j) => G::pool().small_mult[*j as usize % (SMALL_MULT_MAX + 1)].clone(),
+            PointR::Sub(i) => G::pool().sub[*i as usize % POOL_SUB].1.clone(),
+            PointR::Full(i) => G::pool().full[*i as usize % POOL_FULL].clone(),
             PointR::SmallOrder(p, i) => {
+                let pool = G::pool();
                 let v = &pool.small_order[*p as usize % pool.small_order.len()];
                 v[*i as usize % v.len()].clone()
             }
             PointR::Mixed(p, i, s) => {
+                let pool = G::pool();
                 let v = &pool.small_order[*p as usize % pool.small_order.len()];
                 c.add(&v[*i as usize % v.len()], &pool.sub[*s as usize % POOL_SUB].1)
             }
             PointR::Special(i) => {
+                let pool = G::pool();
                 if pool.special.is_empty() {
                     pool.full[*i as usize % POOL_FULL].clone()
                 } else {
@@ -506,9 +510,10 @@ impl PointR {
             PointR::Beta(inner, k) => match inner.build::<G>() {
                 Pt::Inf => Pt::Inf,
                 Pt::Aff(x, y) => {
+                    let beta = beta_in::<G::F>();
                     let mut x = x;
                     for _ in 0..(*k % 3) {
-                        x = x.mul(&pool.beta);
+                        x = x.mul(&beta);
                     }
                     Pt::Aff(x, y)
                 }
